@@ -284,13 +284,20 @@ def gen_struct(item):
     rng = random.Random(item["seed"])
     nres = rng.randint(1, item["maxres"])
     A = []
-    chain, rid = rng.choice(["A", "B", "AA", "x"]), rng.randint(-5, 3)
+    # residue / atom ids near the limits of the integer widths compress() chooses between
+    chain = rng.choice(["A", "B", "AA", "x"])
+    rid = rng.choice([rng.randint(-5, 3), rng.randint(-5, 3), 124, 252, -130, 32764, 65532, -32770])
     seen = set()
+    boundary = rng.choice([None, None, [-1, 127, 128], [-3, 32767, 32768, 5], [-128, 127, 0], [-129, 128],
+                           [255, 256, 0], [65535, 65536, 1], [-32768, 32767], [-32769, 32768, 2]])
     for _ in range(nres):
         rn, het, names = rng.choice(_RES)
         if rng.random() < 0.25:
             chain = rng.choice(["A", "B", "AA", "x", "C'"])
         rid += rng.choice([1, 1, 1, 2, 5, 0])
+        if boundary:
+            # ids that sit exactly on the limits of the signed/unsigned widths, mixed signs
+            rid = boundary[len(seen) % len(boundary)]
         ins = rng.choice(["", "", "", "A", "B"])
         if (chain, rid, ins) in seen:
             rid = max(r for _, r, _ in seen) + 1
@@ -316,13 +323,15 @@ def gen_struct(item):
              "box": rng.choice([None, [10, 20, 30, 90, 90, 90], [12, 12, 15, 90, 90, 120], [8, 9, 10, 60, 90, 90]]),
              "opt": {}, "custom": {}}
     if rng.random() < 0.5:
-        extra["opt"]["atom_id"] = [rng.randint(1, 99999) for _ in range(n)]
+        base_id = rng.choice([1, 120, 250, 32760, 65530, 99990])
+        extra["opt"]["atom_id"] = ([base_id + i for i in range(n)] if rng.random() < 0.6
+                                   else [rng.randint(1, 99999) for _ in range(n)])
     if rng.random() < 0.5:
         extra["opt"]["b_factor"] = [rng.randint(0, 400) / 4 for _ in range(n)]
     if rng.random() < 0.5:
         extra["opt"]["occupancy"] = [rng.randint(0, 4) / 4 for _ in range(n)]
     if rng.random() < 0.5:
-        extra["opt"]["charge"] = [rng.choice([0, 0, 1, -1, 2, -3]) for _ in range(n)]
+        extra["opt"]["charge"] = [rng.choice([0, 0, 1, -1, 2, -3, 127, 128, -128, -129]) for _ in range(n)]
     if rng.random() < 0.3:
         extra["custom"]["my_note"] = [rng.choice(["a", "b c", "it's", 'q"q', "x_y"]) for _ in range(n)]
     arr = build(A, B, extra)
